@@ -126,10 +126,6 @@ def mergeDefAssignmentsToSameVar (b : Term Blk) : Term Blk :=
 def tableAfterDefs (t : Table) (defs : List (Term Def)) : Table :=
   defs.foldl (fun acc d => updateDef acc d.term) t
 
-/-- what block `a` sends to the start of block `t` (one entry per CFG edge) -/
-def tablesSent (p : Program) (a : Term Blk) (out : Table) (t : Tid) : List Table :=
-  (edgesFromBlock p a t).map fun e => match e with | .jump _ _ => out | .other => []
-
 abbrev TableMap := List (Tid × Option Table)
 
 def TableMap.get (m : TableMap) (t : Tid) : Option Table :=
@@ -137,47 +133,116 @@ def TableMap.get (m : TableMap) (t : Tid) : Option Table :=
   | some p => p.2
   | none => none
 
+/-- what block `a` sends to the start of the block `t` of the same function (one table per CFG edge),
+given the current tables `m` at the block starts of the whole program:
+  * jump edges carry the table after the defs of `a`;
+  * an extern-call stub (call to an extern symbol, indirect call) yields the empty table;
+  * for a call to an internal function there is one call-return node per returning block `rb` of the
+    callee; it has a value as soon as the call site OR `rb` has one, and `update_return` then yields the
+    empty table. -/
+def tablesSent (p : Program) (m : TableMap) (a : Term Blk) (t : Tid) : List Table :=
+  let outA : Option Table := (m.get a.tid).map fun ta => tableAfterDefs ta a.term.defs
+  (jmpsWithUntaken a).flatMap fun (j, _) =>
+    match j with
+    | .Branch tgt => if tgt == t then outA.toList else []
+    | .CBranch tgt _ => if tgt == t then outA.toList else []
+    | .BranchInd _ => (a.term.indirectJmpTargets.filter (· == t)).flatMap fun _ => outA.toList
+    | .Call callee (some r) =>
+      if r == t then
+        if isExternTid p callee then (outA.map fun _ => ([] : Table)).toList
+        else match internalCallee p callee with
+          | some s => (s.term.blocks.filter hasReturnJmp).flatMap fun rb =>
+              if outA.isSome || (m.get rb.tid).isSome then [([] : Table)] else []
+          | none => []
+      else []
+    | .CallInd _ (some r) => if r == t then (outA.map fun _ => ([] : Table)).toList else []
+    | _ => []
+
 def mergeOpt (cur : Option Table) (new : Table) : Option Table :=
   match cur with
   | none => some new
   | some c => some (c.merge new)
 
-/-- one round over all blocks (Jacobi): start tables recomputed from the predecessors' current tables -/
-def tableRound (p : Program) (s : Term Sub) (m : TableMap) : TableMap :=
-  s.term.blocks.map fun b =>
-    let incoming : List Table := s.term.blocks.flatMap fun a =>
-      match m.get a.tid with
-      | some ta => tablesSent p a (tableAfterDefs ta a.term.defs) b.tid
-      | none => []
+/-- one round over all blocks of the program (Jacobi): start tables merged with what the predecessors send -/
+def tableRound (p : Program) (m : TableMap) : TableMap :=
+  p.subs.flatMap fun s => s.term.blocks.map fun b =>
+    let incoming : List Table := s.term.blocks.flatMap fun a => tablesSent p m a b.tid
     (b.tid, incoming.foldl mergeOpt (m.get b.tid))
 
-def tableMapSize (m : TableMap) : Nat :=
-  (m.map fun p => match p.2 with | none => 0 | some t => 1 + t.length).sum
-
-def tableMapDefined (m : TableMap) : Nat := (m.filter (·.2.isSome)).length
-
-def tableFix (p : Program) (s : Term Sub) : Nat → TableMap → TableMap
+def tableFix (p : Program) : Nat → TableMap → TableMap
   | 0, m => m
   | fuel + 1, m =>
-    let m' := tableRound p s m
-    if m' == m then m else tableFix p s fuel m'
+    let m' := tableRound p m
+    if m' == m then m else tableFix p fuel m'
 
 /-- initial values: the function's first block and blocks without incoming CFG edge start empty -/
-def initialTables (p : Program) (s : Term Sub) : TableMap :=
-  s.term.blocks.mapIdx fun i b =>
+def initialTables (p : Program) : TableMap :=
+  p.subs.flatMap fun s => s.term.blocks.mapIdx fun i b =>
     (b.tid, if i = 0 || (incomingEdges p s b).isEmpty then some [] else none)
 
-def computeTables (p : Program) (s : Term Sub) : TableMap :=
-  tableFix p s (200 * (s.term.blocks.length + 1)) (initialTables p s)
+def programBlockCount (p : Program) : Nat := (p.subs.map (·.term.blocks.length)).sum
 
-/-- `propagate_input_expression` on one function -/
-def propagateSub (p : Program) (s : Term Sub) : Term Sub :=
-  let m := computeTables p s
+/-- the fixpoint: table at the start of every block (`none` = the block never received a value) -/
+def computeTables (p : Program) : TableMap :=
+  tableFix p (200 * (programBlockCount p + 1)) (initialTables p)
+
+/-- `insert_expressions` on one function -/
+def propagateSub (m : TableMap) (s : Term Sub) : Term Sub :=
   mapSubBlocks (fun b => propagateBlock ((m.get b.tid).getD []) b) s
 
 /-- **`propagate_input_expression`** -/
 def propagateProgram (p : Program) : Program :=
   let p₁ := mapProgramSubs (mapSubBlocks mergeDefAssignmentsToSameVar) p
-  mapProgramSubs (propagateSub p₁) p₁
+  mapProgramSubs (propagateSub (computeTables p₁)) p₁
+
+/-! ### comparison of two outputs up to the iteration order of the tables
+
+`substAll` substitutes the entries one after the other, so its result depends on the order when an entry
+mentions another key (possible through the `recursion_depth` limit only). The tables are acyclic, hence
+substituting `n ≥ |table|` more times reaches the same expression from every order. `closeProgram`
+applies that closure at every place where `propagate_input_expressions` iterates a table. -/
+
+def substAllN (t : Table) : Nat → Expression → Expression
+  | 0, e => e
+  | n + 1, e => substAllN t n (substAll t e)
+
+def closeDefs : Table → List (Term Def) → List (Term Def) × Table
+  | t, [] => ([], t)
+  | t, d :: ds =>
+    match d.term with
+    | .Assign v e =>
+      let t₁ := t.kill v
+      let t₂ := if mentions e v then t₁ else t₁.insert v e
+      let (ds', t') := closeDefs t₂ ds
+      (d :: ds', t')
+    | .Load v a =>
+      let (ds', t') := closeDefs (t.kill v) ds
+      ({ d with term := .Load v (substAllN t t.length a) } :: ds', t')
+    | .Store a e =>
+      let (ds', t') := closeDefs t ds
+      ({ d with term := .Store (substAllN t t.length a) (substAllN t t.length e) } :: ds', t')
+
+def closeBlock (t : Table) (b : Term Blk) : Term Blk :=
+  let (defs, t') := closeDefs t b.term.defs
+  { b with term := { b.term with
+      defs := defs,
+      jmps := b.term.jmps.map fun j => { j with term := mapJmpExprs (substAllN t' t'.length) j.term } } }
+
+/-- close a propagated program `q` (model or implementation output) with the tables the model computes
+for the input program `p` -/
+def closeProgram (p q : Program) : Program :=
+  let p₁ := mapProgramSubs (mapSubBlocks mergeDefAssignmentsToSameVar) p
+  let m := computeTables p₁
+  mapProgramSubs (mapSubBlocks fun b => closeBlock ((m.get b.tid).getD []) b) q
+
+/-! ### the composition: `Project::normalize_optimize` -/
+
+/-- the optimizing passes in the order of `Project::normalize_optimize` (project.rs) -/
+def normalizeOptimize (arch : String) (sp : Variable) (phys : VarSet) (p : Program) : Program :=
+  let p₁ := propagateProgram p
+  let p₂ := substTrivialProgram p₁
+  let p₃ := removeDeadProgram phys p₂
+  let p₄ := propagateControlFlow p₃
+  (substituteAndOnStackpointer arch sp p₄).1
 
 end CweModel.C10
